@@ -1,6 +1,9 @@
 """C07 - rculfhash: single owner of a removed node; competing removers of the same node under the controlled scheduler."""
 from vlib import *
 import lfht_common as L
+import lfhtx_common as X
+XPROGS = ['A0L0X/L0P2/L0X', 'A0L0P2/L0X/R7L0X', 'U0L0X/R2L0P7/L0XL0X', 'A0A2L0XL0X/L0P7L0X/L0NX']
+DPROGS = ['A3A6A9Z3Z0/TL6TL9T', 'U3U9Z3Z1/L9TL3T']
 PROGS = ['A0L0X/L0X/L0X', 'A0A1L0X/L0XL1X/L1XL0X', 'A0L0XL0X/L0XA1/L0X', 'A5A0/L5XL0X/L0XL5X/L5X']
 def run(ctx):
     ctx.cov['source_hash'] = source_hash(L.FILES)
@@ -10,7 +13,14 @@ def run(ctx):
         cases = L.gen(ctx, PROGS, 400 if ctx.quick() else 5000, 'C07')
         corr_schedules(ctx, 'Lfht.v vs src/rculfhash.c', impl, model, cases, L.canon_c, oracle=L.oracle,
                        nontrivial=lambda cl: sum(1 for l in cl if ' ret del ' in l) >= 2 and L.contended(cl), tail='012345' * 200, scenario='scen_lfht')
+    ximpl = X.build(ctx)
+    if ximpl:
+        X.run_cases(ctx, 'ownership among del / replace / add_replace', ximpl, X.gen(ctx, XPROGS, 300 if ctx.quick() else 4000, 'C07x', [('2', '8', 'o'), ('1', '8', 'o')]))
+        dcases = [(prog, '0' * p1 + '1' * w1 + '0000000001' * 60, ('2', '8', 'o')) for prog in DPROGS for p1 in range(60, 420, 4 if ctx.quick() else 1) for w1 in (4, 9, 15)]
+        driver = build_model_driver(ctx, 'resizeproto', 'ExtractResizeProto.v', 'resizeproto_driver.ml')
+        X.run_cases(ctx, 'released bucket tables are never touched again', ximpl, dcases, proto_driver=driver)
     return finish(ctx, trusted=L.TRUSTED + ['C07 partial: "no access after a grace period" is proved for the queue (C12 theorem) with the same ghost-clock device; '
                   'for the table only the single-owner half is a theorem so far'],
                   rule='corpus + parking sweeps + bursty schedules of 2-4 threads all looking up and deleting the same nodes; non-trivial = at least two del calls and contention')
-replay = L.replay
+def replay(ctx, rp):
+    return X.replay(ctx, rp) if (rp.get('failing_input') or {}).get('scenario') == 'scen_lfhtx' else L.replay(ctx, rp)
